@@ -129,4 +129,25 @@ Proof.
   rewrite hist_do_store. intros E. apply app_eq_nil in E as [_ E]. discriminate.
 Qed.
 
+(* ---------- C14: the hook consumer returns nil only after the hook ran, unless the run's data is gone ---------- *)
+(* hook.go runHook, for EVERY state (fault plan, lease, stale reads included): when the lookup answers with a record whose data is
+   still there — whatever its run state, RequestedDataDeleted included — and the handler returns nil (so that the event is then
+   acknowledged), the hook was invoked on exactly that record and returned nil: that invocation is the last token of the trace
+   (unless the instance is crashed, in which case nothing is recorded and nothing is acknowledged either) *)
+Theorem hook_nil_means_invoked st k e s r s1 s' :
+  p_lookup (e_run e) s = (Ok (Some r), s1) -> r_obj r <> ODeleted ->
+  hook_handler st k e s = (Ok tt, s') ->
+  o_dead s1 = false ->
+  exists pers now, o_trace s' = TUser (UFHook st) r pers now UOk :: o_trace s1.
+Proof.
+  intros Hl Hobj H Hd. unfold hook_handler in H. unfold bind at 1 in H. rewrite Hl in H.
+  destruct (r_obj r) eqn:Eo; [|congruence].
+  unfold bind at 1 in H. unfold att_bump in H. cbn [fst snd] in H.
+  unfold bind at 1 in H. unfold get_w in H. cbn [fst snd o_w] in H.
+  unfold bind at 1 in H. unfold emit in H. cbn [o_dead] in H. rewrite Hd in H. cbn [fst snd] in H.
+  match type of H with context [if ?b then UErr _ else UOk] => destruct b end.
+  - unfold fail in H. discriminate H.
+  - unfold ret in H. apply (f_equal snd) in H. cbn [snd] in H. rewrite <- H. cbn [o_trace]. eexists. eexists. reflexivity.
+Qed.
+
 End T.
